@@ -29,6 +29,7 @@ def body(sub, root: tuple, tv: TV, extra=None) -> List[Tuple[str, str, str, str]
     try:
         obj = sub.conv.structure(j, T)
     except Exception:
+        valuecheck.note("not-judged:structuring-fails(C01's matter)" + (":alias-root" if root[0] == "alias" else ""))
         return []  # C01/C14 territory
     if root[0] == "alias":
         return wt.check(obj, {"kind": "reference", "name": root[1]}, j, f"root:{rname}")
